@@ -424,6 +424,11 @@ class FrameChecker(ast.NodeVisitor):
     def apply_summary(self, e, summ, recv, args, kwargs):
         """summ = dict(mutates=[<'self' | positional index | keyword name>], returns='fresh'|'shallow'|'alias'|'elements')"""
         pos = dict(enumerate(args))
+        if summ.get("via_contract"):
+            # the receiver is changed ONLY through a method that has its own (SMT) contract, named by the summary: that effect is the
+            # callee's business and is allowed; every other store into the object stays an obligation of this frame
+            self.record("call", e, "discharged")
+            return Own(FRESH)
         for m in summ.get("mutates", []):
             tgt = recv if m == "self" else pos.get(m) if isinstance(m, int) else kwargs.get(m)
             if tgt is None and isinstance(m, str) and m != "self" and "params" in summ and m in summ["params"]:
@@ -697,6 +702,24 @@ class FrameChecker(ast.NodeVisitor):
             self.obl[name] = Obligation(name, "discharged" if ok else "refuted", self.fn.lineno, want,
                                         "" if ok else ("the required statement can be skipped by an earlier return / raise" if hit else
                                                        "the required unconditional statement is not in the function body"))
+        # a required statement inside a local closure: at the top level of that closure, not skippable by an earlier return / raise
+        for k, (fname, text) in enumerate(self.c.get("must_call_in", [])):
+            want = ast.unparse(ast.parse(text).body[0])
+            name = f"{self.c['name']}/frame:must-call-in#{k}:{fname}:{want[:60]}"
+            defs_ = [n for n in ast.walk(self.fn) if isinstance(n, ast.FunctionDef) and n.name == fname and n is not self.fn]
+            ok, why = False, f"no local function `{fname}`"
+            for d_ in defs_:
+                lv, why = False, f"the required unconditional statement is not at the top level of `{fname}`"
+                for st in d_.body:
+                    hit_ = [st_ for st_ in flat([st]) if ast.unparse(st_) == want]
+                    if hit_:
+                        ok, why = (not lv), ("" if not lv else "the required statement can be skipped by an earlier return / raise")
+                        break
+                    if any(isinstance(n, (ast.Return, ast.Raise)) for n in ast.walk(st)):
+                        lv = True
+                if ok:
+                    break
+            self.obl[name] = Obligation(name, "discharged" if ok else "refuted", self.fn.lineno, want, "" if ok else why)
         anywhere = set()
         for n in ast.walk(self.fn):
             if isinstance(n, ast.stmt):
